@@ -128,7 +128,7 @@ def run(chk):
     n_traces = 1000 if quick else 60000
     traces = [gen_trace(rng) for _ in range(n_traces)]
     reqs = [{"op": "alloc", "f": "trace", "limit": lim, "events": evs} for lim, evs in traces]
-    cs = f"{consts['xvalue']},{consts['bigint']},{consts['fenced_string']},{consts['usize']}"
+    cs = f"{consts['xvalue']},{consts['bigint']},{consts['fenced_string']},{consts['usize']},{consts['rc']},{consts['vec']}"
     mlines = ["alloc trace " + ("-" if lim is None else str(lim)) + " " + cs + " " +
               " ".join((f"{e[0]}{e[1]}:{e[2]}" if e[0] in "aes" else f"{e[0]}{e[1]}") for e in evs) for lim, evs in traces]
     impl = run_harness(reqs)
@@ -221,6 +221,110 @@ def run(chk):
                           f"(the value is accounted for at least its payload of {payload} bytes)", dict(replay, recorded=recorded, model=pred[i]), no_input=True)
         if payload:
             chk.nontrivial.add(("value", label))
+
+    # ------------------------------------------------------------------ (D) native containers: dyn_size against the model,
+    # a Python lower bound (one machine word per stored value pointer) and a metamorphic check on hash collisions
+    word = consts["usize"]
+    EQ = "(a: int, b: int)->{a == b}"
+    ncases = []   # (label, declaration, binding, model shape (kind, args), stored value pointers)
+    k = 0
+    ns_ = [0, 1, 2, 3, 10, 40] + [rng.randint(1, 120) for _ in range(3 if quick else 30)]
+    for n in ns_:
+        for b in sorted({1, 2, 3, 7, max(1, n // 2), max(1, n), 10**6}):
+            buckets = min(n, b)
+            k += 1
+            ncases.append((f"mapping:{n}:{b}", f"let v{k} = mapping((x: int)->{{x % {b}}}, {EQ}).update(range({n}).map((i: int)->{{(i, i * 3)}}));",
+                           f"v{k}", ("mapping", [buckets, n]), 2 * n))
+            k += 1
+            ncases.append((f"set:{n}:{b}", f"let v{k} = set((x: int)->{{x % {b}}}, {EQ}).update(range({n}));", f"v{k}", ("set", [buckets, n]), n))
+        k += 1
+        ncases.append((f"mapping-lib:{n}", f"let v{k} = mapping<int>().update(range({n}).map((i: int)->{{(i, 'v')}}));", f"v{k}", ("mapping", [n, n]), 2 * n))
+        k += 1
+        ncases.append((f"set-lib:{n}", f"let v{k} = set<int>().update(range({n}));", f"v{k}", ("set", [n, n]), n))
+        if n:
+            k += 1
+            ncases.append((f"array:{n}", f"let v{k} = range({n}).map((i: int)->{{i * i}}).to_array();", f"v{k}", ("seqArray", [n]), n))
+            k += 1
+            ncases.append((f"array-lit:{n}", f"let v{k} = [" + ", ".join(str(i) for i in range(n)) + "];", f"v{k}", ("seqArray", [n]), n))
+            k += 1
+            ncases.append((f"stack:{n}", f"let v{k} = range({n}).reduce(stack(), (s: Stack<int>, i: int)->{{s.push(i)}});", f"v{k}", ("stack", [n, 1]), n))
+        k += 1
+        ncases.append((f"lazy-range:{n}", f"let v{k} = range({n});", f"v{k}", ("seqOther", []), 0))
+        k += 1
+        ncases.append((f"lazy-map:{n}", f"let v{k} = range({n}).map((i: int)->{{i}});", f"v{k}", ("seqOther", []), 0))
+    for parts in [2, 3, 5]:
+        k += 1
+        ncases.append((f"chain:{parts}", f"let v{k} = " + " + ".join(f"[{i}, {i}]" for i in range(parts - 1)) + " + range(3);", f"v{k}", ("seqChain", [parts]), parts))
+        k += 1
+        ncases.append((f"zip:{parts}", f"let v{k} = zip(" + ", ".join(f"[{i}, {i + 1}]" for i in range(parts)) + ");" if parts == 2 else
+                       f"let v{k} = [1, 2].zip([3, 4]);", f"v{k}", ("seqZip", [2]), 2))
+        k += 1
+        ncases.append((f"gen-chain:{parts}", f"let v{k} = " + " + ".join(f"[{i}].to_generator()" for i in range(parts)) + ";", f"v{k}", ("genChain", [parts]), parts))
+    k += 1
+    ncases.append(("gen-zip:2", f"let v{k} = [1, 2].to_generator().zip([3, 4].to_generator());", f"v{k}", ("genZip", [2]), 2))
+    k += 1
+    ncases.append(("gen-other", f"let v{k} = range(10).to_generator();", f"v{k}", ("genOther", []), 0))
+    k += 1
+    ncases.append(("stack:0", f"let v{k} = stack();", f"v{k}", ("stack", [0, 1]), 0))
+    k += 1
+    ncases.append(("optional:some", f"let v{k} = some(2**70);", f"v{k}", ("optional", []), 0))
+    k += 1
+    ncases.append(("optional:none", f"let v{k} = none();", f"v{k}", ("optional", []), 0))
+    nreqs = [{"op": "alloc", "f": "sizes", "src": c[1], "names": [c[2]], "limit": HUGE} for c in ncases]
+    nres = run_harness(nreqs)
+    nmod = run_model([(f"alloc size {cs} {c[3][0]} " + " ".join(map(str, c[3][1]))).strip() for c in ncases])
+    for (label, decl, name, shape, entries), req, r, mo in zip(ncases, nreqs, nres, nmod):
+        chk.evaluations += 1
+        kind = label.split(":")[0]
+        chk.count("native:" + kind)
+        replay = {"op": "run", "src": decl, "get": [], "limits": {"size": HUGE}, "sizes_request": req}
+        v = r.get("values", {}).get(name) if isinstance(r, dict) else None
+        if not isinstance(v, dict) or "dyn" not in v:
+            chk.violation(f"value:{kind}:run", f"`{decl}` did not yield a native value: {json.dumps(r)[:300]}", dict(replay, got=r))
+            continue
+        if v["dyn"] < entries * word:
+            chk.violation(f"value:{kind}:under-accounted", f"`{decl}`: the container holds {entries} value pointers ({entries * word} bytes) but its dynamic size is "
+                          f"accounted as {v['dyn']} bytes", dict(replay, got=v, entries=entries))
+            continue
+        if v["size"] != consts["xvalue"] + consts["usize"] + v["static"] + v["dyn"]:
+            chk.violation(f"tie:alloc:size:{kind}", f"`{decl}`: XValue::size is {v['size']}, not size_of(XValue) + size_of(usize) + static + dyn = "
+                          f"{consts['xvalue'] + consts['usize'] + v['static'] + v['dyn']}", dict(replay, got=v), no_input=True)
+        elif mo.split()[0] != str(v["dyn"]):
+            chk.violation(f"tie:alloc:dyn_size:{kind}", f"`{decl}`: dyn_size is {v['dyn']}, the size model says {mo.split()[0]} for {shape}",
+                          dict(replay, got=v, model=mo), no_input=True)
+        if entries:
+            chk.nontrivial.add(("native", label))
+    # metamorphic, model-free, on the accounted total itself: the same n entries under hash functions with different collision
+    # patterns (only the value of `b` differs between the programs); collisions may save bucket headers (<= 3 words each), never entries
+    mcases = []
+    for what in ("mapping", "set"):
+        for n in [5, 20, 60] + [rng.randint(2, 150) for _ in range(2 if quick else 20)]:
+            for b in sorted({1, 2, max(1, n // 3), n - 1}):
+                mcases.append((what, n, b))
+
+    def msrc(what, n, b):
+        fill = f".update(range({n}).map((i: int)->{{(i, i)}}))" if what == "mapping" else f".update(range({n}))"
+        return f"let b = {b}; let c = {what}((x: int)->{{x % b}}, {EQ}){fill};"
+    mreqs = []
+    for what, n, b in mcases:
+        mreqs.append({"op": "run", "src": msrc(what, n, 10**9), "get": [], "limits": {"size": HUGE}})
+        mreqs.append({"op": "run", "src": msrc(what, n, b), "get": [], "limits": {"size": HUGE}})
+    mres = run_harness(mreqs)
+    for i, (what, n, b) in enumerate(mcases):
+        chk.evaluations += 1
+        chk.count("metamorphic:" + what)
+        rinj, rcol = mres[2 * i], mres[2 * i + 1]
+        replay = dict(mreqs[2 * i + 1], injective_src=mreqs[2 * i]["src"])
+        if _fail(rinj) or _fail(rcol) or rinj.get("inst") != "ok" or rcol.get("inst") != "ok":
+            chk.violation(f"meta:{what}:run", f"the metamorphic pair does not run: {_fail(rinj) or rinj.get('inst')} / {_fail(rcol) or rcol.get('inst')}", replay)
+            continue
+        saved = rinj["size1"] - rcol["size1"]
+        buckets = min(n, b)
+        if saved < 0 or saved > (n - buckets) * 3 * word:
+            chk.violation(f"meta:{what}:collisions", f"a {what} of {n} entries accounts {rinj['size1']} bytes in total with an injective hash and {rcol['size1']} with "
+                          f"hash x % {b} ({buckets} buckets): colliding entries save {saved} bytes, more than the {n - buckets} bucket headers "
+                          f"({(n - buckets) * 3 * word} bytes) they can save - stored entries are not accounted", dict(replay, injective=rinj["size1"], colliding=rcol["size1"]))
+        chk.nontrivial.add(("meta", what, n, b))
 
     # ------------------------------------------------------------------ (B) programs under a sweep of the limit
     lib = run_harness([{"op": "run", "src": "", "get": [], "limits": {"size": HUGE}}])[0]
